@@ -63,10 +63,66 @@ func mkShare(rnd *rand.Rand, ns libshare.Namespace) libshare.Share {
 }
 
 type square struct {
-	w     int
-	acc   *eds.Rsmt2D
-	roots *share.AxisRoots
-	ns    libshare.Namespace
+	w      int
+	acc    *eds.Rsmt2D
+	roots  *share.AxisRoots
+	ns     libshare.Namespace
+	layout []byte // mixed squares: last namespace byte of every ODS share, row-major, non-decreasing
+}
+
+// mixedLayouts: several namespaces per square with gaps, so that for some rows a namespace is ABSENT
+// yet inside the row's namespace range (between two namespaces of the row), absent and outside the
+// range, or present.  Used for the row-namespace-data identifiers.
+var mixedLayouts = map[int][]byte{
+	2: {0x10, 0x30, // row 0: 0x20 absent inside [0x10,0x30]
+		0x30, 0x40}, // row 1: 0x38 absent inside
+	4: {0x10, 0x10, 0x30, 0x30, // row 0: 0x20 absent inside
+		0x30, 0x30, 0x30, 0x30, // row 1: one namespace: everything else is outside
+		0x30, 0x50, 0x50, 0x70, // row 2: 0x40 and 0x60 absent inside
+		0x70, 0x70, 0x70, 0x90}, // row 3: 0x80 absent inside
+}
+
+func newMixedSquare(rnd *rand.Rand, w int) *square {
+	layout := mixedLayouts[w]
+	shares := make([]libshare.Share, w*w)
+	for i := range shares {
+		shares[i] = mkShare(rnd, userNs(layout[i]))
+	}
+	acc, err := eds.Rsmt2DFromShares(shares, w)
+	if err != nil {
+		panic(err)
+	}
+	roots, err := acc.AxisRoots(context.Background())
+	if err != nil {
+		panic(err)
+	}
+	return &square{w: w, acc: acc, roots: roots, ns: userNs(layout[0]), layout: layout}
+}
+
+// rndClass says, from the layout alone, what a row-namespace-data identifier of a mixed square is.
+func (sq *square) rndClass(row int, ns byte) string {
+	lo, hi := sq.layout[row*sq.w], sq.layout[row*sq.w+sq.w-1]
+	for c := 0; c < sq.w; c++ {
+		if sq.layout[row*sq.w+c] == ns {
+			return "present"
+		}
+	}
+	if ns > lo && ns < hi {
+		return "absent-inside"
+	}
+	return "outside"
+}
+
+// mixedRndIDs: for every ODS row every namespace of the square, every gap namespace, one below and one
+// above everything.
+func (sq *square) mixedRndIDs() []idSpec {
+	var out []idSpec
+	for r := 0; r < sq.w; r++ {
+		for ns := byte(0x08); ns <= 0x98; ns += 0x08 {
+			out = append(out, idSpec{Typ: "rnd", Row: r, Ns: ns})
+		}
+	}
+	return out
 }
 
 // one namespace over the whole ODS so that every range is servable; random payloads
@@ -102,6 +158,7 @@ type idSpec struct {
 	Col  int    `json:"col"`
 	From int    `json:"from"`
 	To   int    `json:"to"`
+	Ns   byte   `json:"ns"` // rnd: last byte of the user namespace asked for (0 = the square's single namespace)
 }
 
 func (s idSpec) String() string {
@@ -111,6 +168,9 @@ func (s idSpec) String() string {
 	case "row":
 		return fmt.Sprintf("row(%d)", s.Row)
 	case "rnd":
+		if s.Ns != 0 {
+			return fmt.Sprintf("rnd(%d,ns=%#x)", s.Row, s.Ns)
+		}
 		return fmt.Sprintf("rnd(%d)", s.Row)
 	}
 	return fmt.Sprintf("range[%d,%d)", s.From, s.To)
@@ -123,7 +183,11 @@ func (s idSpec) newBlock(height uint64, sq *square) (bitswap.Block, error) {
 	case "row":
 		return bitswap.NewEmptyRowBlock(height, s.Row, 2*sq.w)
 	case "rnd":
-		return bitswap.NewEmptyRowNamespaceDataBlock(height, s.Row, sq.ns, 2*sq.w)
+		ns := sq.ns
+		if s.Ns != 0 {
+			ns = userNs(s.Ns)
+		}
+		return bitswap.NewEmptyRowNamespaceDataBlock(height, s.Row, ns, 2*sq.w)
 	case "range":
 		return bitswap.NewEmptyRangeNamespaceDataBlock(height, s.From, s.To, sq.w)
 	}
@@ -201,6 +265,7 @@ type world struct {
 	rep    *vh.Report
 	rnd    *rand.Rand
 	S, T   map[int]*square // by ODS width
+	M      map[int]*square // mixed-namespace squares (widths 2, 4)
 	height uint64
 	mu     sync.Mutex
 }
@@ -654,10 +719,13 @@ func writeReport(t *testing.T, rep *vh.Report) {
 func TestDriver(t *testing.T) {
 	rep := vh.NewReport()
 	rnd := vh.Rand()
-	w := &world{rep: rep, rnd: rnd, S: map[int]*square{}, T: map[int]*square{}, height: uint64(vh.Seed()) << 20}
+	w := &world{rep: rep, rnd: rnd, S: map[int]*square{}, T: map[int]*square{}, M: map[int]*square{}, height: uint64(vh.Seed()) << 20}
 	for _, k := range []int{1, 2, 4} {
 		w.S[k] = newSquare(rnd, k)
 		w.T[k] = newSquare(rnd, k)
+	}
+	for _, k := range []int{2, 4} {
+		w.M[k] = newMixedSquare(rnd, k)
 	}
 	var cases []mCase
 	if p := os.Getenv("VERIF_CASES"); p != "" {
